@@ -34,8 +34,10 @@ VARIABLES g,      \* the object, as GraphOps models it
 vars == <<g, gh, last>>
 
 \* value sets that a .cfg file cannot spell (no negative literals there)
+WeightSet2 == {-1, 2}
 WeightSet3 == {-1, 0, 2}
 WeightSet4 == {-1, 0, 2, 3}
+BadAll == {0, 1, MAXU}
 
 -----------------------------------------------------------------------------
 (* The ghost: an abstract graph                                             *)
@@ -113,7 +115,7 @@ GAttStep(h, c) ==
 InsertCopy(h, i, j, a, f) ==
     LET a1 == K1(i, j)
         a2 == K2(i, j) IN
-    IF h.cp[a1][a2] = 0 THEN [h EXCEPT !.cp[a1][a2] = 1, !.same[a1][a2] = TRUE]
+    IF h.cp[a1][a2] = 0 THEN [h EXCEPT !.cp[a1][a2] = 1]
     ELSE IF f THEN [h EXCEPT !.cp[a1][a2] = @ + 1,
                             !.same[a1][a2] = @ /\ (a = h.att[a1][a2])]
     ELSE h
@@ -148,9 +150,13 @@ GStep(h, c) ==
                      IF h1.att[i][j] = NoneL THEN 0
                      ELSE IF c.op = "removeDuplicateEdges" THEN 1
                      ELSE IF i < h.n /\ j < h.n /\ hc.cp[i][j] > 0 THEN hc.cp[i][j] ELSE 1]],
+         \* a pair whose copies carried different attributes: for labels the mismatch
+         \* disappears with the edge; the running totals of the multigraph and weighted
+         \* classes stay off for good, so there the flag is sticky
          same |-> [i \in VS(n1) |-> [j \in VS(n1) |->
-                     IF h1.att[i][j] = NoneL THEN TRUE
-                     ELSE IF i < h.n /\ j < h.n THEN hc.same[i][j] ELSE TRUE]]]
+                     IF ~(i < h.n /\ j < h.n) THEN TRUE
+                     ELSE IF h1.att[i][j] = NoneL /\ Kind \in {"nolabel", "labeled"} THEN TRUE
+                     ELSE hc.same[i][j]]]]
 
 -----------------------------------------------------------------------------
 (* Calls enabled in a state                                                 *)
@@ -218,8 +224,16 @@ AllCalls ==
 \* "forced insertions followed by removeDuplicateEdges" (C16): while a duplicate
 \* exists only further insertions, removeDuplicateEdges and pure reads are enabled
 DupOK(c) ==
-    LabeledKind \/ ~HasDuplicates(g) \/ IsAdd(c) \/ c.op = "removeDuplicateEdges"
+    LabeledKind \/ ~HasDuplicates(g) \/ (IsAdd(c) /\ (Kind = "weighted" \/ c.f))
+        \/ c.op = "removeDuplicateEdges"
         \/ Step(g, c).out # "ok" \/ Step(g, c).g = g
+
+\* Copies of one pair that carried DIFFERENT weights / multiplicities leave the running
+\* totals off for good; this is outside C16 ("provided all copies ... carried the same")
+\* and, for weights, unbounded.  Such states are generated (and executed on the real
+\* classes, and checked) but not explored further.
+AllSameG == \A i, j \in VS(gh.n) : gh.same[i][j]
+ExploreOnlySame == Kind \in {"multi", "weighted"} => AllSameG
 
 Bounded(x) ==
     /\ \A i, j \in VS(x.n) : x.adj[i][j] <= MaxCopies
@@ -270,6 +284,7 @@ Symmetric == ~Directed => \A i, j \in V : g.adj[i][j] = g.adj[j][i]
 CountOK == g.en = CanonSum(Copies)
 \* degrees and adjacency matrix are the matching counts
 DegreesOK ==
+    (Kind = "multi" => AllSame) =>
     IF Directed
     THEN \A v \in V : /\ OutDegree(g, v) = SumVec([j \in V |-> Copies(v, j) * MultOf(v, j)], g.n)
                       /\ InDegree(g, v)  = SumVec([i \in V |-> Copies(i, v) * MultOf(i, v)], g.n)
@@ -277,6 +292,7 @@ DegreesOK ==
             Degree(g, v, twice) =
               SumVec([j \in V |-> Copies(v, j) * MultOf(v, j) * (IF j = v /\ twice THEN 2 ELSE 1)], g.n)
 MatrixOK ==
+    (Kind = "multi" => AllSame) =>
     \A twice \in BOOLEAN : \A i, j \in V :
         AdjMatrix(g, twice)[i][j] =
             Copies(i, j) * MultOf(i, j) * (IF ~Directed /\ i = j /\ twice THEN 2 ELSE 1)
